@@ -121,6 +121,13 @@ def scenarios(rng, quick):
                     "CONNECTION_STARTED": "CONNECTION_STARTED", "GOT_CHANNEL": "CONNECTION_GOT_CHANNEL"}[nm]
             t = round(te + 0.1, 3)
             out.append((f"reset-in-handler:{nm}#{seen_n[nm]}", [(t, "reset", None)], {f"{full}#{seen_n[nm]}": 0.3}, t + 60))
+    # the manager context is left in the middle of discovery / of the handshake (the pump is cancelled inside the
+    # bracket: its closing event is still delivered)
+    for nm_ in ("LOCATING_STARTED", "CONNECTION_STARTED", "GOT_FIRMWARE", "GOT_CONFIG"):
+        tt_ = [te for (n2_, te) in _PILOT["named"] if n2_ == nm_]
+        if tt_:
+            t = round(tt_[-1] + 0.04, 3)
+            out.append((f"exit-after-{nm_}", [(t, "exit", None)], {}, t + 5))
     # blackouts of various lengths at various moments
     for (a, d) in [(0.5, 3.0), (0.5, 200.0), (4.5, 30.0), (4.5, 100.0), (12.0, 50.0), (12.0, 400.0), (30.0, 130.0)]:
         out.append((f"blackout@{a}+{d}", [(a, "net", "blackout"), (a + d, "net", "ok")], {}, a + d + 250))
